@@ -63,12 +63,12 @@ def normal_density(x, mu=2.9, sigma=1.6):
     return np.exp(-0.5 * ((x - mu) / sigma) ** 2) / np.sqrt(2.0 * np.pi * sigma**2)
 
 
-def expo_density(x, tau=2.2, x0=0.4):
-    return np.exp(-(x + x0) / tau) / tau * np.exp(x0 / tau)
+def parab_density(x, a=1.5, b=-0.25):
+    return (1.0 + a * x + b * x * x) / (6.0 + 18.0 * a + 72.0 * b)
 
 
-def expo_density_antiderivative(x, tau=2.2, x0=0.4):
-    return -np.exp(-(x + x0) / tau) * np.exp(x0 / tau)
+def parab_density_antiderivative(x, a=1.5, b=-0.25):
+    return (x + a * x * x / 2.0 + b * x * x * x / 3.0) / (6.0 + 18.0 * a + 72.0 * b)
 
 
 def custom_cost(a=1.5, b=0.7):
@@ -90,7 +90,7 @@ FUNCS = dict(
     idx2=idx2,
     idx2_nano=idx2_nano,
     normal=normal_density,
-    expod=expo_density,
+    parab=parab_density,
 )
 
 N = 8  # data points of xy / indexed objects (fitted problems need >= 8 points, DESIGN 3.4)
@@ -260,7 +260,7 @@ def build_model(spec):
         kw = {}
         if spec.get("bin_evaluation"):
             be = spec["bin_evaluation"]
-            kw["bin_evaluation"] = expo_density_antiderivative if be == "antiderivative" else be
+            kw["bin_evaluation"] = parab_density_antiderivative if be == "antiderivative" else be
         m = HistParametricModel(n_bins=len(HIST_EDGES) - 1, bin_range=(HIST_EDGES[0], HIST_EDGES[-1]), model_density_func=fn, model_parameters=pars, bin_edges=list(HIST_EDGES), **kw)
         n = len(HIST_EDGES) - 1
         val = V(v, n)
@@ -383,7 +383,7 @@ def build_fit(spec):
             hkw = dict(kw)
             if spec.get("bin_evaluation"):
                 be = spec["bin_evaluation"]
-                hkw["bin_evaluation"] = expo_density_antiderivative if be == "antiderivative" else be
+                hkw["bin_evaluation"] = parab_density_antiderivative if be == "antiderivative" else be
             if spec.get("density") is not None:
                 hkw["density"] = spec["density"]
             fit = k2.HistFit(c, FUNCS[spec["model"]], **(dict(cost_function=cost_arg, **hkw) if cost else hkw))
